@@ -331,15 +331,6 @@ pub fn run(c: Compiled, opts: &RunOpts) -> RunOut {
                             o.depth_seen.insert((v.index, key), d);
                         }
                     }
-                    if d[0] != 0 || d[2] != 0 || d[3] != 0 || d[4] != 0 {
-                        // between statements nothing may be left on value / var-path / by-ref stacks, no pending argument state
-                        if o.depth_anomaly.is_none() {
-                            o.depth_anomaly = Some(format!(
-                                "statement start at instruction {} (row {}) with non-empty transient stacks [value,register,var_path,by_ref,arg_states] {:?}",
-                                v.index, rows.get(v.index).copied().unwrap_or(0), d
-                            ));
-                        }
-                    }
                 }
                 if want_typed && o.typed_anomaly.is_none() {
                     let udt = udt_for_tick.as_ref().unwrap();
